@@ -76,9 +76,9 @@ fn main() {
         "queries run through the verif-hooks facade SiiQueries over an in-memory provider; both arithmetic profiles (release, and overflow-checks + debug-assertions) are run and merged".into(),
     ];
 
-    check.run_prop("h4-arbitrary-images", 16, tier.pick(1_500, 40_000), ec::c13_case, run);
+    check.run_prop("h4-arbitrary-images", 16, tier.pick(1_500, 200_000), ec::c13_case, run);
     // the same images inside a simulated device: initialisation and configuration must end
-    check.run_prop("sii-device-init", 16, tier.pick(150, 3_000), ss::c13_dev_case, run_dev);
+    check.run_prop("sii-device-init", 16, tier.pick(150, 15_000), ss::c13_dev_case, run_dev);
     check.merge_profile_child("checked");
     check.finish();
 }
